@@ -334,6 +334,35 @@ def propagate_constants(tree: ast.Module) -> ast.Module:
                     cls_consts.setdefault(st.targets[0].id, []).append((c.name, st.value))
     # a class constant is propagated only if its name is unique among the classes of the module (no overriding in a subclass to worry about)
     cls_consts = {k: v[0] for k, v in cls_consts.items() if len(v) == 1}
+    # a MUTABLE display (list / set / dict) is one shared object: it is propagated only when every use of the name in the module is read-only (iteration, membership,
+    # subscript load, read-only methods, pure builtins) - `ctx = _SHARED` or `_SHARED.append(x)` keep the name, so that sharing stays visible to the rules
+    def _mutable(v):
+        return isinstance(v, (ast.List, ast.Set, ast.Dict)) or (isinstance(v, ast.Call) and isinstance(v.func, ast.Name) and v.func.id == "set")
+
+    def _read_only_uses(name, is_attr):
+        par = {}
+        for n in ast.walk(tree):
+            for c in ast.iter_child_nodes(n):
+                par[id(c)] = n
+        RO_M = {"get", "items", "keys", "values", "index", "count", "copy", "union", "intersection", "difference", "issubset", "issuperset", "isdisjoint"}
+        RO_F = {"len", "sorted", "tuple", "list", "set", "frozenset", "dict", "enumerate", "zip", "any", "all", "min", "max", "sum", "iter", "reversed", "isinstance", "str", "repr"}
+        for n in ast.walk(tree):
+            hit = (isinstance(n, ast.Attribute) and n.attr == name and isinstance(n.ctx, ast.Load)) if is_attr else (isinstance(n, ast.Name) and n.id == name and isinstance(n.ctx, ast.Load))
+            if not hit:
+                continue
+            p_ = par.get(id(n))
+            ok = (isinstance(p_, (ast.For, ast.AsyncFor, ast.comprehension)) and p_.iter is n) or \
+                 (isinstance(p_, ast.Compare) and n in p_.comparators and all(isinstance(o, (ast.In, ast.NotIn, ast.Eq, ast.NotEq)) for o in p_.ops)) or \
+                 (isinstance(p_, ast.Subscript) and p_.value is n and isinstance(p_.ctx, ast.Load)) or \
+                 (isinstance(p_, ast.Attribute) and p_.value is n and p_.attr in RO_M and isinstance(par.get(id(p_)), ast.Call) and par[id(p_)].func is p_) or \
+                 (isinstance(p_, ast.Call) and n in p_.args and isinstance(p_.func, ast.Name) and p_.func.id in RO_F) or \
+                 (isinstance(p_, ast.Starred))
+            if not ok:
+                return False
+        return True
+
+    mod_consts = {k: v for k, v in mod_consts.items() if not _mutable(v) or _read_only_uses(k, False)}
+    cls_consts = {k: v for k, v in cls_consts.items() if not _mutable(v[1]) or _read_only_uses(k, True)}
     if not mod_consts and not cls_consts:
         return tree
 
